@@ -1,6 +1,7 @@
 package main
 
 import (
+	"strconv"
 	"bufio"
 	"encoding/json"
 	"fmt"
@@ -32,6 +33,8 @@ type simReq struct {
 	Rules []simRule `json:"rules,omitempty"`
 	// per-processor reports (config:show_pc): the text VM.Step returns is part of what is compared (C09)
 	ShowPc bool `json:"showpc,omitempty"`
+	// opcode -> delay in clocks -> probability (stalls of the instruction): a SimDelays object for this run
+	Delays map[string]map[string]float32 `json:"delays,omitempty"`
 }
 
 type simRule struct {
@@ -161,6 +164,18 @@ func runSim(q *simReq) (res simRes) {
 	}
 	vm := new(bondmachine.VM)
 	vm.Bmach = bm
+	if q.Delays != nil {
+		sd := simbox.NewSimDelays()
+		for op, dist := range q.Delays {
+			dd := simbox.DelayDistribution{}
+			for d, p := range dist {
+				n, _ := strconv.Atoi(d)
+				dd[int32(n)] = p
+			}
+			sd.OpcodeDelays[op] = dd
+		}
+		vm.SimDelayMap = sd
+	}
 	if err := vm.Init(); err != nil {
 		res.Err = "init: " + err.Error()
 		return
